@@ -302,3 +302,52 @@ func writesCallerOwnedView(w *World, fn *ssa.Function, v ssa.Value) bool {
 	}
 	return ncall > 0
 }
+
+// freshActionsChannel (C02.9 / C05.7): a local vote travels to the mirror without height or round;
+// the mirror files it under the round of the entrance whose Actions channel it read it from. Every
+// round entrance therefore carries a channel made for that entrance: a channel reused across rounds
+// lets a vote still queued for round R be read, and stored and gossiped, as a vote of round R+1.
+func freshActionsChannel(r *Run, rule string) {
+	w := r.W
+	r.Rule(rule, "every StateMachineRoundEntrance.Actions channel is made for that entrance (never a channel kept from an earlier round), so a queued local vote cannot be filed under a later round")
+	n := 0
+	for _, fn := range append(w.FuncsInPkg("tmengine/internal/tmstate"), w.FuncsInPkg("tmstate/internal/tsi")...) {
+		a := w.A(fn)
+		ord := Ord{}
+		a.Instrs(func(in ssa.Instruction) {
+			st, ok := in.(*ssa.Store)
+			if !ok || lastField(st.Addr) != "tmeil.StateMachineRoundEntrance.Actions" {
+				return
+			}
+			n++
+			v := a.sh.Of(st.Val)
+			alts := []*Shape{v}
+			if v.K == "phi" {
+				alts = v.A
+			}
+			okAll := true
+			for _, alt := range alts {
+				s := alt.String()
+				if !(strings.HasPrefix(s, "make:chan(") || s == "nil") {
+					okAll = false
+				}
+			}
+			r.Check(okAll, rule, ord.Next(FuncName(fn)+"#entrance-actions"), w.InstrPos(in), "Actions of a round entrance is "+truncate(v.String(), 120))
+		})
+		// literals with an Actions field
+		a.Instrs(func(in ssa.Instruction) {
+			st, ok := in.(*ssa.Store)
+			if !ok {
+				return
+			}
+			if b, m := Match("lit:tmeil.StateMachineRoundEntrance{Actions:$c,$...}", a.sh.Of(st.Val)); m {
+				n++
+				s := b["$c"].String()
+				r.Check(strings.HasPrefix(s, "make:chan(") || s == "nil", rule, ord.Next(FuncName(fn)+"#entrance-actions"), w.InstrPos(in), "Actions of a round entrance is "+truncate(s, 120))
+			}
+		})
+	}
+	if n == 0 {
+		r.Fail(rule, "entrance-actions", "", "no assignment of a round entrance's Actions channel found")
+	}
+}
